@@ -287,8 +287,58 @@ fn after_failure_body(c: &AfterFailure, ctx: &mut CaseCtx) -> PropResult {
         let _ = crate::engine::catch(|| rmp_serde::from_slice::<Variant>(&bytes).is_ok());
         let _ = crate::engine::catch(|| bincode::deserialize::<Variant>(&bytes[..bytes.len().min(24)]).is_ok());
     }
+    // failed *writes* on this thread as well: a sink that gives an I/O error after a few bytes (or
+    // panics), under every serde format; whatever the encoders stage per thread must not leak
+    struct Failing {
+        left: usize,
+        panic: bool,
+    }
+    impl std::io::Write for Failing {
+        fn write(&mut self, b: &[u8]) -> std::io::Result<usize> {
+            if self.left == 0 {
+                if self.panic {
+                    crate::engine::quiet_panic("sink panics");
+                }
+                return Err(std::io::Error::new(std::io::ErrorKind::Other, "sink full"));
+            }
+            let n = b.len().min(self.left);
+            self.left -= n;
+            Ok(n)
+        }
+        fn flush(&mut self) -> std::io::Result<()> {
+            Ok(())
+        }
+    }
+    let mut write_failed = 0;
+    for j in &c.junk {
+        let blob: Vec<u8> = (0..(*j as usize * 3 + 5)).map(|i| (i * 11 % 251) as u8).collect();
+        let victims = [
+            Variant::BinaryString(blob.clone().into()),
+            Variant::SharedString(rbx_types::SharedString::new(blob.clone())),
+            Variant::Tags(vec!["first", "second"].into_iter().map(String::from).collect::<Vec<String>>().into()),
+            c.val.to_variant(&|_| rbx_types::Ref::none(), rbx_types::Ref::none()),
+        ];
+        let v = &victims[*j as usize % victims.len()];
+        let left = *j as usize % 23;
+        let panic = *j >= 200;
+        for fmt in 0..4 {
+            let r = crate::engine::catch(|| -> bool {
+                let mut sink = Failing { left, panic };
+                match fmt {
+                    0 => serde_json::to_writer(&mut sink, v).is_err(),
+                    1 => serde_json::to_writer_pretty(&mut sink, v).is_err(),
+                    2 => rmp_serde::encode::write(&mut sink, v).is_err(),
+                    _ => bincode::serialize_into(&mut sink, v).is_err(),
+                }
+            });
+            if !matches!(r, Ok(false)) {
+                write_failed += 1;
+            }
+        }
+    }
     ctx.label_if(rejected > 0, "decode_rejected_before");
-    ctx.nontrivial_if(rejected > 0);
+    ctx.label_if(write_failed > 0, "encode_failed_before");
+    ctx.nontrivial_if(rejected > 0 || write_failed > 0);
     codec_body(&ValCase { val: c.val.clone(), finite: true }, ctx)
 }
 
@@ -608,6 +658,7 @@ pub fn run(ctx: &Ctx) -> PropertyReport {
         let strat = || (any_value(true), proptest::collection::vec(any::<u8>(), 1..4)).prop_map(|(v, junk)| AfterFailure { val: v.val, junk });
         let mut r = ctx.run_prop("after-failure", cases, strat, after_failure_body);
         r.floor("decode_rejected_before", cases / 4);
+        r.floor("encode_failed_before", cases / 4);
         rep.push(r);
     }
     if sub.runs("long-values") {
